@@ -258,7 +258,33 @@ func runC15(c *Ctx) {
 				c.Check(want == name, "R15.2", "forwarded "+name, kv.Pos(), "copied from m."+name, "the forwarded "+name+" is not the request's "+name)
 			case name == "Privileged":
 				t := ff.term(kv.Value)
-				ok := t != nil && t.K == 'k' && t.Name == "slices.Contains" && len(t.Args) == 2 && t.Args[0].String() == TField(cT, cperms).String() && t.Args[1].Name == `"op"`
+				isOpTest := func(t *Term) bool {
+					return t != nil && t.K == 'k' && t.Name == "slices.Contains" && len(t.Args) == 2 && t.Args[0].String() == TField(cT, cperms).String() && t.Args[1].Name == `"op"`
+				}
+				ok := isOpTest(t)
+				if !ok && t != nil && t.K == 'v' {
+					// a local that still equals the test when the message is built
+					if st, _ := ff.At(mm); st != nil {
+						for _, f := range st.Facts() {
+							if f.Op == "eq" && f.Pos && f.B != nil && ((f.A.String() == t.String() && isOpTest(f.B)) || (f.B.String() == t.String() && isOpTest(f.A))) {
+								ok = true
+							}
+						}
+						// b := <test>: b true => test, b false => not test (both still standing)
+						imp := func(pol bool) bool {
+							for _, f := range st.Facts() {
+								if f.Op == "imp" && f.Cond != nil && f.Then != nil && f.Cond.Op == "true" && f.Cond.Pos == pol && f.Cond.A.String() == t.String() &&
+									f.Then.Op == "true" && f.Then.Pos == pol && isOpTest(f.Then.A) {
+									return true
+								}
+							}
+							return false
+						}
+						if imp(true) && imp(false) {
+							ok = true
+						}
+					}
+				}
 				c.Check(ok, "R15.2", "forwarded Privileged", kv.Pos(), "slices.Contains(c.permissions, \"op\") evaluated when forwarding", "Privileged is not exactly the sender's current 'op' permission")
 			}
 		}
